@@ -6,6 +6,7 @@ import FuModel.Xargs.Read
 import FuModel.Pred.C08
 import FuModel.Pred.C10
 import FuModel.Find.Perm
+import FuModel.Drv.FindRegex
 
 /-!
 Driver verb `find`: a whole run of find on an observed world.
@@ -127,6 +128,11 @@ def parseArg (s : String) : Option Arg :=
     let i ← i.toNat?
     pure (.tok (.prim (.samefile d i)))
   | ["lname", h] => (bytesOfHex h).map fun b => .tok (.prim (.lname b))
+  | ["regextype", t] => (FuModel.Drv.FindRegex.rtypeOfWire t).map .regextype
+  | ["regex", ic, t, re] => do
+    let t ← FuModel.Drv.FindRegex.rtypeOfWire t
+    let re ← FuModel.Drv.FindRegex.reOfWire re
+    pure (.regex (ic == "1") t re)
   | ["printf", h] => do
     let fmt ← charsOfHex h
     let (comps, _) ← FuModel.Find.Printf.parse fmt
@@ -148,6 +154,7 @@ def parseReq : List String → Option Req
     let f ← parseFollow f
     let roots ← (roots.splitOn ";").mapM parseRoot
     let args ← (splitList args).mapM parseArg
+    if !regexTypesOk .emacs args then none
     pure ⟨f, roots, args⟩
   | _ => none
 
